@@ -16,19 +16,20 @@ type specError struct{ msg string }
 
 // Env is the context in which a spec expression is translated.
 type Env struct {
-	g       *Gen
-	f       *Frame
-	at      *ssa.BasicBlock
-	heap    *HeapState
-	old     *HeapState
-	bind    map[string]Val
-	over    map[ssa.Value]Val
-	results []Val
-	pkg     *types.Package
-	reach   string
-	symHeap *symHeap // when translating a spec function body
-	inOld   bool
-	inQuant int
+	g          *Gen
+	f          *Frame
+	at         *ssa.BasicBlock
+	heap       *HeapState
+	old        *HeapState
+	bind       map[string]Val
+	over       map[ssa.Value]Val
+	results    []Val
+	pkg        *types.Package
+	reach      string
+	symHeap    *symHeap // when translating a spec function body
+	inOld      bool
+	inQuant    int
+	lemmaFrame *Frame
 }
 
 type symHeap struct {
